@@ -10,7 +10,7 @@ A document is plain JSON (so that it can be handed to TLC unchanged):
   Block B:  ["p", [I..]] | ["h", level, [I..]] | ["ul", [[B..] ..]] | ["tbl", [[[B..] ..] ..]]
             | ["sdt", [B..]] | ["tbx", [B..]]
   Inline I: ["r", id] | ["tab"] | ["br"] | ["a", [I..]] | ["ins", [I..]] | ["del", [I..]]
-            | ["isdt", [I..]] | ["fn", id] | ["cm", id]
+            | ["isdt", [I..]] | ["fn", id] | ["cm", id] | ["itbx", [B..]] (text box anchored in the paragraph)
 
 Every text leaf is a token id (positive int, unique in the document); it is rendered as the
 word  zq<id:04d>x  which no extractor decoration can produce.  The *class* of a token (BODY,
@@ -66,6 +66,8 @@ def inl_ids(inls):
             yield i[1]
         elif t in ("a", "ins", "del", "isdt"):
             yield from inl_ids(i[1])
+        elif t == "itbx":       # a text box anchored inside the paragraph: blocks
+            yield from block_ids(i[1])
 
 
 def block_ids(blocks):
@@ -99,6 +101,8 @@ def constructs(doc) -> set:
                 out.add("r.acc")
             if i[0] in ("a", "ins", "del", "isdt"):
                 inl(i[1], ctx)
+            elif i[0] == "itbx":
+                blk(i[1])
 
     def blk(bs, depth_tbl=0, in_cell=False):
         for b in bs:
